@@ -1356,6 +1356,16 @@ def canonical_func(fi):
                 if len(tnames) == len(n.targets[0].elts) and not (tnames & names_in(n.value)):
                     return [ast.copy_location(ast.Assign(targets=[t], value=ast.Subscript(value=copy_ast(n.value), slice=ast.Constant(value=i), ctx=ast.Load())), n)
                             for i, t in enumerate(n.targets[0].elts)]
+            # `a, b = <expression>` is `t = <expression>; a = t[0]; b = t[1]` (the temporary is folded away again where that is sound)
+            if len(n.targets) == 1 and isinstance(n.targets[0], (ast.Tuple, ast.List)) and isinstance(n.value, (ast.Call, ast.Subscript, ast.BinOp)) \
+                    and all(isinstance(t, ast.Name) for t in n.targets[0].elts) and 2 <= len(n.targets[0].elts) <= 6:
+                tnames = [t.id for t in n.targets[0].elts]
+                tmp = 'unpack__%d' % getattr(n, 'lineno', 0)
+                if len(set(tnames)) == len(tnames) and uses_in_function(tmp) == 0:
+                    first_ = ast.copy_location(ast.Assign(targets=[ast.Name(id=tmp, ctx=ast.Store())], value=n.value), n)
+                    rest_ = [ast.copy_location(ast.Assign(targets=[t], value=ast.Subscript(value=ast.Name(id=tmp, ctx=ast.Load()), slice=ast.Constant(value=i), ctx=ast.Load())), n)
+                             for i, t in enumerate(n.targets[0].elts)]
+                    return [ast.fix_missing_locations(x) for x in [first_] + rest_]
             return n
 
         def visit_If(self, n):
